@@ -96,7 +96,8 @@ def line(res):
     return "%-28s prop=%s valid_seed=%s tests=%s/%s demo=%s->%s caught_by=%s %s" % (
         os.path.basename(res["dir"]), res["property"], res.get("valid_seed"), res.get("tests_passed"), res.get("tests_failed"),
         res.get("demo_clean_exit"), res.get("demo_changed_exit"), res.get("caught_by"),
-        {c: r["signatures"][:2] for c, r in res.get("checks", {}).items()})
+        {c: r["signatures"][:2] for c, r in res.get("checks", {}).items()}) + "".join(
+        " HARNESS-ERROR(%s exit=%s)" % (c, r.get("exit")) for c, r in res.get("checks", {}).items() if r.get("exit") not in (0, 1))
 
 
 def main(argv):
